@@ -212,14 +212,67 @@ impl Opts {
         self.tier == "thorough"
     }
     pub fn writer(&self) -> Box<dyn Write> {
-        match &self.out {
+        let inner: Box<dyn Write + Send> = match &self.out {
             Some(p) => Box::new(std::io::BufWriter::with_capacity(
                 1 << 20,
                 std::fs::File::create(p).expect("out file"),
             )),
             None => Box::new(std::io::BufWriter::with_capacity(1 << 20, std::io::stdout())),
-        }
+        };
+        let shared = std::sync::Arc::new(std::sync::Mutex::new(inner));
+        let _ = WATCH_OUT.set(shared.clone());
+        Box::new(SharedWriter(shared))
     }
+}
+
+type SharedOut = std::sync::Arc<std::sync::Mutex<Box<dyn Write + Send>>>;
+
+/// the line file, shared with the watchdog thread: when a call into the real code does not
+/// return, the watchdog writes that op's line (`<op> => HANG ...`), flushes and ends the process
+pub struct SharedWriter(SharedOut);
+impl Write for SharedWriter {
+    fn write(&mut self, buf: &[u8]) -> std::io::Result<usize> {
+        self.0.lock().unwrap().write(buf)
+    }
+    fn flush(&mut self) -> std::io::Result<()> {
+        self.0.lock().unwrap().flush()
+    }
+}
+impl Drop for SharedWriter {
+    // the watchdog's static keeps the inner writer alive: flush what the owner wrote
+    fn drop(&mut self) {
+        let _ = self.0.lock().unwrap().flush();
+    }
+}
+static WATCH_OUT: std::sync::OnceLock<SharedOut> = std::sync::OnceLock::new();
+static WATCH_OP: std::sync::Mutex<Option<(String, std::time::Instant)>> = std::sync::Mutex::new(None);
+static WATCH_ON: std::sync::Once = std::sync::Once::new();
+
+/// the op that is about to run on the real code (None: finished)
+pub fn watch_op(op: Option<&str>) {
+    *WATCH_OP.lock().unwrap() = op.map(|o| (o.to_string(), std::time::Instant::now()));
+}
+
+/// one op of the router harness is a bounded computation (milliseconds); one that is still
+/// running after `limit_s` seconds has halted the routing core
+pub fn start_watchdog(limit_s: u64) {
+    WATCH_ON.call_once(|| {
+        std::thread::spawn(move || loop {
+            std::thread::sleep(std::time::Duration::from_millis(500));
+            let hung = match &*WATCH_OP.lock().unwrap() {
+                Some((op, t)) if t.elapsed().as_secs() >= limit_s => Some(op.clone()),
+                _ => None,
+            };
+            if let Some(op) = hung {
+                if let Some(out) = WATCH_OUT.get() {
+                    let mut w = out.lock().unwrap();
+                    let _ = writeln!(w, "{op} => HANG no return after {limit_s}s");
+                    let _ = w.flush();
+                }
+                std::process::exit(0);
+            }
+        });
+    });
 }
 
 /// silence the default panic hook (we run the real code under catch_unwind and report panics
